@@ -47,7 +47,11 @@ RULE = ('random edge-consistent sequences of 1-8 (quick) / 1-30 (thorough) block
         'round set_block replaces 1-3 blocks by edge-consistent content of ANOTHER duration / add_block appends, the '
         'whole oracle is repeated on the same object after every operation); reread (written, read into a Sequence() '
         'whose system has another gradient raster, exported from the re-read object; arbitrary gradients whose last '
-        'sample differs from `last`). distinct = distinct sequence states; non-trivial = at '
+        'sample differs from `last`); long (1-10 s of delay in front, events exactly one / two raster steps after '
+        'the previous event of the channel); twins (an extended trapezoid and an arbitrary gradient with IDENTICAL '
+        'normalised amplitude arrays = one deduplicated shape, both orders, with delays); gapped (self-contained '
+        'blocks stored with set_block under arbitrary positive, gapped, non-ascending block numbers, partly written '
+        'and re-read). distinct = distinct sequence states; non-trivial = at '
         'least one non-zero junction between blocks or a gradient with a delay')
 TRUSTED = ['binary64 arithmetic of NumPy and scipy.interpolate.PPoly are outside the model: sampled',
            'get_block is taken as the definition of the events held by the sequence (C06 checks it)']
@@ -71,7 +75,8 @@ def export_defect(held, ch, ts, vs, rend, times, tol_extra=Fraction(0)):
         if not a < b:
             return 'not-increasing', {'channel': ch, 't0': float(a), 't1': float(b)}
     scale = max(rend.max_abs(), Fraction(1))
-    tol = scale / 10 ** 9 + tol_extra
+    # binary64 noise of absolute times (a few ulp of the total duration) times the steepest ramp
+    tol = scale / 10 ** 9 + tol_extra + rend.max_slope() * held.total / 10 ** 15
     for t in times:
         want, spread = rend.value(t)
         got = eg.eval_export(ts, vs, t)
@@ -220,7 +225,8 @@ def check_round(ctx, case, seq, blocks_desc, rng, n_ranges=3):
                 scale = float(max(rend.max_abs(), 1))
                 for t, gv in zip(times, got):
                     want, spread = rend.value(t)
-                    if not abs(float(gv) - float(want)) <= 1e-9 * scale + float(rend.slack_at(t)) + float(spread) + 1e-12:
+                    if not abs(float(gv) - float(want)) <= 1e-9 * scale + float(rend.slack_at(t)) + float(spread) + 1e-12 \
+                            + float(rend.max_slope() * held.total) * 1e-15:
                         ctx.fail('C08/get_gradients-value', case, {'channel': ch, 't': float(t), 'pp': float(gv),
                                                                    'rendered': float(want)})
                         ok = False
@@ -434,22 +440,26 @@ def run(ctx):
     rng = ctx.rng('sequences')
     rrng = ctx.rng('ranges')
     big = ctx.tier == 'thorough' or ctx.escalated
-    n_cases = 2500 if big else 90
+    n_cases = 2500 if big else 110
     cases = corpus()
     for i in range(n_cases):
-        stream = rng.choice(['plain', 'plain', 'history', 'history', 'reread'])
+        stream = rng.choice(['plain', 'history', 'history', 'reread', 'long', 'long', 'twins', 'twins', 'gapped', 'gapped'])
         b = eg.Builder(rng, with_rf=rng.random() < 0.2, with_adc=rng.random() < 0.2,
-                       max_blocks=30 if big and i % 4 == 0 else 8, reread=(stream == 'reread'))
+                       max_blocks=30 if big and i % 4 == 0 else 8, reread=(stream == 'reread'),
+                       long=(stream == 'long'), twins=(stream == 'twins'), gapped=(stream == 'gapped'))
         c = b.generate()
-        if stream == 'history':
+        c['stream'] = stream
+        if stream == 'history' or (stream in ('long', 'twins') and rng.random() < 0.3):
             c['history'] = b.gen_history()
+        if stream == 'gapped' and rng.random() < 0.4:
+            c['reread_raster_us'] = rng.choice([c['raster_us'], 10 if c['raster_us'] == 20 else 20])
         cases.append(c)
     for i, c in enumerate(cases):
         if ctx.out_of_time():
             ctx.notes.append('time budget reached after %d sequences' % i)
             break
         run_case(ctx, c)
-        ctx.count('stream.%s' % ('history' if c.get('history') else 'reread' if 'reread_raster_us' in c else 'plain'))
+        ctx.count('stream.%s' % c.get('stream', 'corpus'))
         if i % 40 == 3:
             ctx.sample({'raster_us': c['raster_us'], 'n_blocks': len(c['blocks']), 'first_block': c['blocks'][0]})
     render_correspondence(ctx, ctx.rng('render'), 120 if big else 12)
